@@ -1,8 +1,7 @@
 import Pycoin.Proofs.SighashScript
 import Pycoin.Proofs.TxWire
 /-!
-C04 helper lemmas: `_delete_signature` equals Core's `FindAndDelete(scriptCode, CScript() << sig)` on scripts whose
-pushes are complete.
+C04 helper lemmas: `_delete_signature` equals Core's `FindAndDelete(scriptCode, CScript() << sig)` on every script.
 -/
 namespace Pycoin.Sighash
 open Pycoin Pycoin.Script Pycoin.Spec.Sighash
@@ -17,10 +16,22 @@ theorem isPrefixOf_iff {a s : Bytes} : a.isPrefixOf s = true ↔ ∃ t, s = a ++
   · rintro ⟨t, ht⟩; exact ⟨t, ht.symm⟩
   · rintro ⟨t, ht⟩; exact ⟨t, ht.symm⟩
 
-/-- FindAndDelete of a whole instruction is the instruction filter -/
+/-- a whole instruction is never a prefix of bytes `GetScriptOp` cannot decode -/
+theorem not_prefix_of_undecodable {sub s : Bytes} (hsub : IsInstr sub) (hg : Spec.getScriptOp s = none) :
+    sub.isPrefixOf s = false := by
+  cases hp : sub.isPrefixOf s with
+  | false => rfl
+  | true =>
+    obtain ⟨t, ht⟩ := isPrefixOf_iff.mp hp
+    obtain ⟨o, p, hg'⟩ := hsub.2 t
+    rw [← ht, hg] at hg'
+    cases hg'
+
+/-- FindAndDelete of a whole instruction is the instruction filter on the decodable part; the undecodable rest is
+copied as it is -/
 theorem findAndDeleteAux_instr (sub : Bytes) (hsub : IsInstr sub) : ∀ (f : Nat) (s : Bytes), s.length ≤ f →
-    (instructions f s).2 = [] →
-    findAndDeleteAux sub (f + 1) s = (((instructions f s).1.map (·.2)).filter (fun x => x ≠ sub)).flatten := by
+    findAndDeleteAux sub (f + 1) s =
+      (((instructions f s).1.map (·.2)).filter (fun x => x ≠ sub)).flatten ++ (instructions f s).2 := by
   have hne := hsub.1
   have hnp : sub.isPrefixOf [] = false := by
     cases sub with
@@ -29,26 +40,24 @@ theorem findAndDeleteAux_instr (sub : Bytes) (hsub : IsInstr sub) : ∀ (f : Nat
   intro f
   induction f with
   | zero =>
-    intro s hl _
+    intro s hl
     have : s = [] := List.eq_nil_of_length_eq_zero (by omega)
     subst this
     simp [findAndDeleteAux, instructions, hnp, Spec.getScriptOp]
   | succ f ih =>
-    intro s hl hc
-    unfold instructions at hc ⊢
+    intro s hl
+    unfold instructions
     cases hg : Spec.getScriptOp s with
     | none =>
-      simp only [hg] at hc
-      subst hc
-      simp [findAndDeleteAux, hnp, Spec.getScriptOp]
+      simp [findAndDeleteAux, not_prefix_of_undecodable hsub hg, hg]
     | some t =>
       obtain ⟨o, p, rest⟩ := t
-      simp only [hg] at hc ⊢
+      simp only
       obtain ⟨b, r, k, hs, ho, hrest, hk1, hk2, hk⟩ := getScriptOp_some hg
       have hrl : rest.length = s.length - k := by rw [hrest, List.length_drop]
       have hkk : s.length - rest.length = k := by omega
       have hsplit : s = s.take k ++ rest := by rw [hrest, List.take_append_drop]
-      have ihr := ih rest (by omega) hc
+      have ihr := ih rest (by omega)
       unfold findAndDeleteAux
       by_cases hp : sub.isPrefixOf s = true
       · obtain ⟨t, ht⟩ := isPrefixOf_iff.mp hp
@@ -68,15 +77,21 @@ theorem findAndDeleteAux_instr (sub : Bytes) (hsub : IsInstr sub) : ∀ (f : Nat
         simp only [hp, hg, ihr, List.map_cons, hkk]
         simp [List.filter_cons, hsec]
 
-theorem findAndDelete_instr (script sub : Bytes) (hsub : IsInstr sub) (hc : Complete script) :
-    findAndDelete script sub = ((instrSections script).filter (fun x => x ≠ sub)).flatten := by
+/-- `FindAndDelete(script, sub)` for a whole instruction `sub`, on **every** script -/
+theorem findAndDelete_instr_all (script sub : Bytes) (hsub : IsInstr sub) :
+    findAndDelete script sub = ((instrSections script).filter (fun x => x ≠ sub)).flatten ++ instrTail script := by
   unfold findAndDelete
   have : sub.isEmpty = false := by
     cases sub with
     | nil => exact absurd rfl hsub.1
     | cons a as => rfl
   simp only [this]
-  exact findAndDeleteAux_instr sub hsub script.length script (Nat.le_refl _) hc
+  exact findAndDeleteAux_instr sub hsub script.length script (Nat.le_refl _)
+
+theorem findAndDelete_instr (script sub : Bytes) (hsub : IsInstr sub) (hc : Complete script) :
+    findAndDelete script sub = ((instrSections script).filter (fun x => x ≠ sub)).flatten := by
+  have : instrTail script = [] := hc
+  rw [findAndDelete_instr_all script sub hsub, this, List.append_nil]
 
 /-! ## `CScript() << sig` is one instruction, and it is what `_delete_signature` looks for -/
 
@@ -129,13 +144,23 @@ theorem deleteSignature_subscript (sig : Bytes) (hl : sig.length < 2 ^ 32) :
         | [], _, _ => rfl
         | [x], _, h1 => exact absurd rfl h1
 
-/-- `_delete_signature(script, sig)` = `FindAndDelete(script, CScript() << sig)` for scripts whose pushes are complete -/
-theorem deleteSignature_eq_findAndDelete (script sig : Bytes) (hc : Complete script) (hl : sig.length < 2 ^ 32) :
+/-- `_delete_signature(script, sig)` = `FindAndDelete(script, CScript() << sig)` for **every** script -/
+theorem deleteSignature_eq_findAndDelete (script sig : Bytes) (hl : sig.length < 2 ^ 32) :
     deleteSignature script sig = .ok (findAndDelete script (pushData sig)) := by
   obtain ⟨h1, h2⟩ := deleteSignature_subscript sig hl
   unfold deleteSignature
   rw [h1]
   simp only [h2]
-  rw [deleteSubscript_complete script _ hc, findAndDelete_instr script _ (pushData_isInstr sig hl) hc]
+  rw [deleteSubscript_eq script _, findAndDelete_instr_all script _ (pushData_isInstr sig hl)]
+
+/-- the loop over the signatures of a CHECKMULTISIG is Core's succession of `FindAndDelete` calls -/
+theorem deleteSignatures_eq_scriptCodeFor : ∀ (sigs : List Bytes) (script : Bytes), (∀ s ∈ sigs, s.length < 2 ^ 32) →
+    deleteSignatures script sigs = .ok (scriptCodeFor script sigs)
+  | [], script, _ => rfl
+  | s :: ss, script, h => by
+    unfold deleteSignatures scriptCodeFor
+    rw [deleteSignature_eq_findAndDelete script s (h s (by simp))]
+    simp only [List.foldl_cons]
+    exact deleteSignatures_eq_scriptCodeFor ss _ (fun x hx => h x (by simp [hx]))
 
 end Pycoin.Sighash
